@@ -111,6 +111,7 @@ func run() {
 	t.checkPackageVars()
 	typesTxt := t.genTypes()
 
+	var runDecl *ast.FuncDecl
 	// pass 1: collect and classify functions
 	var fileNames []string
 	for fn := range t.files {
@@ -128,6 +129,9 @@ func run() {
 			}
 			if why, ok := skipFuncs[fd.Name.Name]; ok {
 				t.skip[fd.Name.Name] = why
+				if fd.Name.Name == "Run" {
+					runDecl = fd
+				}
 				continue
 			}
 			fi := &funcInfo{goName: fd.Name.Name, decl: fd, file: fn, calls: map[string]bool{}, writes: map[string]bool{}, lensPar: map[string]bool{}}
@@ -330,6 +334,35 @@ func run() {
 		write(sm.name, b.String())
 		allMods = append(allMods, sm.name)
 	}
+	// Run
+	if runDecl != nil {
+		txt := t.translateRun(runDecl)
+		var b strings.Builder
+		b.WriteString(header)
+		b.WriteString("import Z80.Monad\nimport Z80.Attr\nimport Z80.RunBase\n")
+		imps := map[string]bool{}
+		for cal := range t.runInfo.calls {
+			imps[modOf(cal)] = true
+		}
+		var il []string
+		for i := range imps {
+			il = append(il, i)
+		}
+		sort.Strings(il)
+		for _, i := range il {
+			fmt.Fprintf(&b, "import Z80.Gen.%s\n", i)
+		}
+		b.WriteString("\nset_option linter.unusedVariables false\nnamespace Z80.Gen\nopen Z80\n\n")
+		b.WriteString(txt)
+		b.WriteString("\nend Z80.Gen\n")
+		write("Run", b.String())
+		allMods = append(allMods, "Run")
+	} else {
+		panic(refusal("CPU.Run not found"))
+	}
+	// zex tables and images (data only)
+	write("ZexData", genZexData(*repo))
+	allMods = append(allMods, "ZexData")
 	// per-file umbrellas and All
 	var fts []string
 	for ft := range perFile {
